@@ -178,6 +178,8 @@ func c07Hostile(entry string) []string {
 		out = append(out, "")
 	}
 	out = append(out, "../../../../../../../../../../escaped", "..", "..", ".", "../outside.txt", "../sib/keep.txt", "../sib", "../../work")
+	// hostile names longer than PATH_MAX (4096): the OS refuses the whole path, but only after os.MkdirAll has made its prefixes
+	out = append(out, "../../../escaped/"+strings.Repeat("a/", 2100)+"b", "../sib/"+strings.Repeat("x", 5000), strings.Repeat("d/", 2050)+"../../..")
 	return out
 }
 
